@@ -1,5 +1,6 @@
 import QclibModel.Model.DriverLib
 import QclibModel.Model.Majority
+import QclibModel.Gen.Majority
 open Lean Qclib Qclib.Drv
 
 def runOp (j : Json) : List String :=
@@ -8,6 +9,11 @@ def runOp (j : Json) : List String :=
     -- one line per n in [lo, hi]: "n : k1 k2 ..."
     (List.range' (jNat j "lo") (jNat j "hi" + 1 - jNat j "lo")).map fun n =>
       s!"{n} : " ++ " ".intercalate ((majSizes n).map toString)
+  | "gen_sizes" =>
+    -- the definition translated from the current source, same line format, preceded by n_min
+    (List.range' (jNat j "lo") (jNat j "hi" + 1 - jNat j "lo")).map fun n =>
+      let r := Qclib.Gen.Majority.operate_sizes (Int.ofNat n)
+      s!"{n} : min {r.1} : " ++ " ".intercalate (r.2.map toString)
   | "majority" =>
     let controls := (jNats j "controls").toList
     ((majority controls (jNat j "target") : Circ Nat)).map fun g =>
